@@ -220,15 +220,26 @@ Print Assumptions C02_untied_table_counts_subsets.
      PMF = 0 exactly                                     for u < 0 or u >= N1*N2 + 1/2.
    (Without ties and at a non-integer u the code answers for floor(u); the property speaks about the attainable
    points only, there w = 2u.)  The model's table functions do not occur: only observed numbers and Spec/Ucount.v. *)
-Theorem C02_check_ok_sound : forall line code tag pos diag (cs : case02),
+(* A line holds k >= 1 blocks = distributions evaluated back to back in ONE process (point-major first pass,
+   distribution-major second pass); an accepted line has at least one block and EVERY block satisfies case_ok.
+   status = 0 in case_ok is the harness's report that all calls returned, the tie vector was left unmodified and
+   the second pass reproduced every PMF/CDF value of the first pass bit for bit (status 5 otherwise), i.e. the
+   compared values do not depend on what was evaluated before them. *)
+Theorem C02_check_ok_sound : forall line code tag pos diag (bs : list case02),
   check_C02 line = verdict code tag pos diag -> (code = 0 \/ code = 1)%Z ->
-  p_line02 line = Some (cs, []) -> case_ok cs.
+  p_line02 line = Some (bs, []) -> bs <> [] /\ Forall case_ok bs.
 Proof. exact check_ok_sound. Qed.
 Print Assumptions C02_check_ok_sound.
 
+(* one block (one distribution of the line) on its own *)
+Theorem C02_check_block_ok_sound : forall (cs : case02) code tag pos diag,
+  check_block02 cs = (code, tag, pos, diag) -> (code = 0 \/ code = 1)%Z -> case_ok cs.
+Proof. exact check_block_ok_sound. Qed.
+Print Assumptions C02_check_block_ok_sound.
+
 (* the hypothesis on p_line02 costs nothing: an accepted line always parses, completely *)
 Theorem C02_check_accepted_parses : forall line code tag pos diag,
-  check_C02 line = verdict code tag pos diag -> (code = 0 \/ code = 1)%Z -> exists cs, p_line02 line = Some (cs, []).
+  check_C02 line = verdict code tag pos diag -> (code = 0 \/ code = 1)%Z -> exists bs, p_line02 line = Some (bs, []).
 Proof. exact check_accepted_parses. Qed.
 Print Assumptions C02_check_accepted_parses.
 
@@ -281,7 +292,7 @@ Proof. unfold valid_T. vm_compute. repeat split; try reflexivity; try lia; repea
    hypotheses of C02_check_ok_sound are satisfiable; and the pool hypothesis of case_ok is satisfiable by
    C02_pool_exists *)
 Example C02_check_ok_example :
-  let l1 := [2; 2; 3; 0; 3; 2; 1; 2; 8;
+  let b1 := [2; 3; 0; 3; 2; 1; 2; 8;
              0xbfe0000000000000; 0; 0;   0; 0x3fb999999999999a; 0x3fb999999999999a;
              0x3ff8000000000000; 0x3fc999999999999a; 0x3fd3333333333333;
              0x4002000000000000; 0; 0x3fd3333333333333;
@@ -289,14 +300,21 @@ Example C02_check_ok_example :
              0x4018000000000000; 0x3fb999999999999a; 0x3ff0000000000000;
              0x401a000000000000; 0; 0x3ff0000000000000;   0x401c000000000000; 0; 0x3ff0000000000000;
              0; 0x4018000000000000; 0x3fe0000000000000; 0]%Z in
-  let l2 := [2; 2; 2; 1; 0; 7;
+  let b2 := [2; 2; 1; 0; 7;
              0xbff0000000000000; 0; 0;   0; 0x3fc5555555555555; 0x3fc5555555555555;
              0x3ff8000000000000; 0x3fc5555555555555; 0x3fd5555555555555;
              0x4000000000000000; 0x3fd5555555555555; 0x3fe5555555555556;
              0x4010000000000000; 0x3fc5555555555555; 0x3ff0000000000000;
              0x4012000000000000; 0; 0x3ff0000000000000;   0x4013000000000000; 0; 0x3ff0000000000000;
              0; 0x4010000000000000; 0x3fe0000000000000; 0]%Z in
+  let l1 := (2 :: 1 :: b1)%Z in let l2 := (2 :: 1 :: b2)%Z in let l3 := (2 :: 2 :: b1 ++ b2)%Z in
   check_C02 l1 = verdict V_OK 8 (-1) [] /\ check_C02 l2 = verdict V_OK 1 (-1) [] /\
-  (match p_line02 l1 with Some ((N1, N2, _, T, us, _, _), []) => (N1, N2, T, length us) = (2, 3, [2; 1; 2], 8)%nat | _ => False end) /\
-  (match p_line02 l2 with Some ((N1, N2, _, T, us, _, _), []) => (N1, N2, T, length us) = (2, 2, [], 7)%nat | _ => False end).
+  check_C02 l3 = verdict V_OK 9 (-1) [] /\
+  (match p_line02 l1 with Some ([(N1, N2, _, T, us, _, _)], []) => (N1, N2, T, length us) = (2, 3, [2; 1; 2], 8)%nat | _ => False end) /\
+  (match p_line02 l2 with Some ([(N1, N2, _, T, us, _, _)], []) => (N1, N2, T, length us) = (2, 2, [], 7)%nat | _ => False end) /\
+  (match p_line02 l3 with Some (bs, []) => length bs = 2%nat | _ => False end) /\
+  (* a block whose status reports a second-pass difference (5) is rejected, with the block index as last diagnostic *)
+  check_C02 (2 :: 2 :: b1 ++ removelast b2 ++ [5])%Z = verdict V_MISMATCH 9 (-1) [4; 5; 1]%Z /\
+  (* a line without blocks is malformed, not accepted *)
+  check_C02 [2; 0]%Z = verdict V_MALFORMED 0 (-3) [].
 Proof. vm_compute. repeat split; reflexivity. Qed.
